@@ -1253,6 +1253,23 @@ fn c05(r: &mut Rng, fonts: &[FontInfo], n: u64, tr: &mut Option<std::fs::File>) 
                     let c = *r.pick(&fi.chars);
                     rq.text = (0..k).map(|j| (c, j as u32)).collect();
                 }
+                6 => {
+                    // a text that begins with a combining mark, at the beginning of a paragraph, clusters kept per character:
+                    // the shaper puts a dotted circle in front, whose cluster and mask come from the glyph under the cursor
+                    let marks: Vec<u32> = fi.chars.iter().cloned().filter(|c| (0x0300..=0x036F).contains(c) || (0x064B..=0x0652).contains(c) || (0x05B0..=0x05BD).contains(c)).collect();
+                    if !marks.is_empty() {
+                        let m = *r.pick(&marks);
+                        let n0 = rq.text.len() as u32;
+                        rq.text.insert(0, (m, 0));
+                        for (j, t) in rq.text.iter_mut().enumerate() {
+                            // descending numbering half of the time (the minimum is then not at the front)
+                            t.1 = if n0 % 2 == 0 { j as u32 } else { n0 + 1 - j as u32 };
+                        }
+                        rq.flags = (rq.flags | 1) & !0x10;
+                        rq.level = 1 + (n0 % 2) as u8;
+                        rq.pre.clear();
+                    }
+                }
                 4 if !reqs.is_empty() => {
                     // the previous text moved to another plane (c + k * 0x10000): characters that agree with the ones just
                     // looked up in their low 16 bits - the font maps none of them, or other glyphs
